@@ -94,7 +94,7 @@ func c07Run(w *W) {
 	expire := func() {
 		now := w.Now()
 		for _, c := range ctxs {
-			if c.cur != nil && now >= c.cur.start+c.cur.T {
+			if c.cur != nil && c.cur.T > 0 && now >= c.cur.start+c.cur.T { // (an accepted survey time of zero: no limit)
 				exp := c.cur.start + c.cur.T
 				if c.recv != nil {
 					if !c.recv.Returned() {
@@ -209,7 +209,22 @@ func c07Run(w *W) {
 			var id uint32
 			what := ""
 			short := false
-			switch w.Choose(simrt.SProg, 8) {
+			var lead []byte
+			switch w.Choose(simrt.SProg, 9) {
+			case 8:
+				// routing words (no top bit) in front of the current survey's id:
+				// a response's header is the id alone; this one is malformed
+				if c.cur == nil {
+					continue
+				}
+				for n := 1 + w.Choose(simrt.SProg, 3); n > 1; n-- {
+					lead = append(lead, u32(uint32(w.Choose(simrt.SProg, 1<<30))&0x7fffffff)...)
+				}
+				id, what = uint32(w.Choose(simrt.SProg, 1<<30))&0x7fffffff, fmt.Sprintf("%d words without the top bit, then the current id", len(lead)/4+1)
+				lead = append(lead, u32(id)...)
+				lead = append(lead, u32(c.cur.id)...)
+				w.Fault("msg-malformed")
+				w.Probe("response-with-leading-routing-words")
 			case 0, 1, 2, 3:
 				if c.cur == nil {
 					if len(c.prevID) == 0 {
@@ -248,6 +263,8 @@ func c07Run(w *W) {
 			var wireb []byte
 			if short {
 				wireb = []byte("xyz")[:w.Choose(simrt.SProg, 4)]
+			} else if lead != nil {
+				wireb = append(lead, tag...)
 			} else {
 				wireb = append(u32(id), tag...)
 			}
@@ -322,9 +339,14 @@ func c07Run(w *W) {
 		case k == 8 && a%5 == 1 && !c.closed:
 			// the survey time is changed (it applies to surveys sent from now
 			// on): the survey in progress keeps the time it was sent with
-			nt := []time.Duration{T / 2, 2 * T, T, 3 * T}[(a/5)%4]
-			if nt <= 0 {
+			nt := []time.Duration{T / 2, 2 * T, T, 3 * T, 0, T}[(a/5)%6]
+			if nt < 0 {
 				nt = T
+			}
+			if nt == 0 {
+				// accepted, documented as "no limit" - for the surveys sent from
+				// now on; the one in progress is neither cut short nor prolonged
+				w.Probe("survey-time-set-to-zero-during-survey")
 			}
 			w.Op("ctx%d SetOption(SurveyTime, %v)", c.idx, nt)
 			var err error
@@ -360,7 +382,7 @@ func c07Run(w *W) {
 		case k == 8: // time passes: short of, exactly to, or beyond the expiry
 			ds := []time.Duration{T / 3, T - 1, T, T + 1, 2 * T, time.Millisecond}
 			d := ds[a%len(ds)]
-			if c.cur != nil && a%2 == 0 {
+			if c.cur != nil && c.cur.T > 0 && a%2 == 0 {
 				// aim at this context's expiry instant
 				rem := c.cur.start + c.cur.T - w.Now()
 				d = []time.Duration{rem - 1, rem, rem + 1}[(a/2)%3]
@@ -436,4 +458,8 @@ func c07Run(w *W) {
 
 func init() {
 	register(&Scenario{Name: "surveyor-responses", Prop: "C07", Horizon: 2 * time.Hour, Weight: 40, Run: c07Run})
+	// C19: the survey time and the receive queue length are changed while
+	// surveys are in progress (also to the accepted zero = no limit): they
+	// take effect for the next survey, as documented, and disturb nothing
+	register(&Scenario{Name: "survey-options-changed-mid-survey", Prop: "C19", Horizon: 2 * time.Hour, Weight: 4, Run: c07Run})
 }
